@@ -203,7 +203,7 @@ fn run_case(kind: KindId, mode: Mode, env: &mut Env, hist: &[SOp], term: Term, p
 }
 
 fn note_violation(res: &mut UnitResult, env: &Env, ki: &KindInfo, hist: &[SOp], term: Term) {
-    if let Some(v) = &env.viol {
+    for v in env.viol.iter().chain(env.qviols.iter()) {
         let mut tags: Vec<&str> = v.tags.to_vec();
         if ki.adaptor && !tags.contains(&"C13") && !tags.contains(&"*") {
             tags.push("C13");
@@ -269,15 +269,16 @@ fn run_unit(unit: usize, s: &suites::Suite, kind: KindId, len: usize, first: Opt
             res.ops += hist.len() as u64 + 1;
             res.hash = fnv(res.hash, h);
             states.insert((env.m.cursor.min(len), env.m.skipped, env.m.end1));
-            if env.viol.is_some() {
+            if env.viol.is_some() || !env.qviols.is_empty() {
                 if env.viol.as_ref().map_or(false, |v| v.class == "panic") {
                     res.panics += 1;
                 }
                 note_violation(&mut res, &env, &ki, &hist, term);
-                let st = env.viol.as_ref().unwrap().step;
-                if st < hist.len() {
-                    dead_at = Some(st);
-                    break; // the other terminals fail at the same step
+                if let Some(v) = env.viol.as_ref() {
+                    if v.step < hist.len() {
+                        dead_at = Some(v.step);
+                        break; // the other terminals fail at the same step
+                    }
                 }
             }
         }
@@ -499,15 +500,16 @@ fn replay_cmd(args: &[String]) -> i32 {
         println!("NONDETERMINISTIC: two runs of the same history differ");
         return 2;
     }
-    match &env.viol {
-        Some(v) => {
-            println!("VIOLATION-REPRODUCED tags={:?} class={} step={}: {}", v.tags, v.class, v.step, v.detail);
-            1
-        }
-        None => {
-            println!("no violation on this history");
-            0
-        }
+    let mut n = 0;
+    for v in env.viol.iter().chain(env.qviols.iter()) {
+        println!("VIOLATION-REPRODUCED tags={:?} class={} step={}: {}", v.tags, v.class, v.step, v.detail);
+        n += 1;
+    }
+    if n == 0 {
+        println!("no violation on this history");
+        0
+    } else {
+        1
     }
 }
 
